@@ -133,9 +133,9 @@ class CHECK(Check):
         seen = set()
         for d, m in self.models.items():
             f = self.fams[d]
-            sents = set(f.s0_pairs()) | set(f.s0_edges())
+            sents = set(f.s0_pairs()) | set(f.s0_edges()) | set(f.s0_triples())
             if self.tier == 'thorough':
-                sents |= set(gsx.Families(m, 2).s0_edges())
+                sents |= set(gsx.Families(m, 2).s0_edges()) | set(f.s0_pairs(table=1)) | set(f.s0_triples(table=1))
             for s in sorted(sents):
                 if s[0] not in ('SELECT', 'LPAREN', 'WITH', 'INSERT', 'UPDATE', 'DELETE', 'CREATE'):
                     continue
@@ -205,7 +205,9 @@ class CHECK(Check):
         for path, i in info.items():
             n = count.get(id(i['node']), 0)
             if len(by_id[id(i['node'])]) > 1:
-                continue  # object shared between two slots by the parser: not judged
+                # one object reachable through several slots (e.g. Exists.query and Exists.args[0]): judged once, through its first path
+                if path != by_id[id(i['node'])][0]:
+                    continue
             if i['required'] and n == 0:
                 if any(path[:k] in info and info[path[:k]]['required'] and count.get(id(info[path[:k]]['node']), 0) == 0 for k in range(len(path))):
                     continue   # an enclosing node is already reported as unvisited
@@ -272,11 +274,12 @@ class CHECK(Check):
                 res.violation(f'is_target-flag|{slot(root, p) if p else "root"}|got={bool(is_target)}', f'{text!r}: node at {reflect.path_str(p)} flagged is_target={is_target}')
         # (4) replacement of exactly the visited node
         nvis = len(visits)
-        vis_paths = [by_id.get(id(n), [None])[0] if len(by_id.get(id(n), [])) == 1 else None for n, _, _ in visits]
+        vis_paths = [by_id.get(id(n), [None])[0] for n, _, _ in visits]
         for k in range(nvis):
             p = vis_paths[k]
             if p is None or p == ():
                 continue
+            aliases = by_id[id(visits[k][0])]     # every slot through which this very object is reachable: all must receive the replacement
             tree = copy.deepcopy(root)
             marker = A.Identifier('__marker__')
             cnt = [0]
@@ -294,12 +297,15 @@ class CHECK(Check):
                 continue
             res.count('replacements')
             try:
-                at = reflect.get_at(tree, p)
+                ats = [reflect.get_at(tree, q) for q in aliases]
             except Exception:
-                at = None
-            ok = at is marker
+                ats = [None]
+            at = next((x for x in ats if x is not marker), marker)
+            ok = all(x is marker for x in ats)
             if ok:
-                reflect.set_at(tree, p, copy.deepcopy(reflect.get_at(root, p)))
+                orig = copy.deepcopy(reflect.get_at(root, p))
+                for q in aliases:
+                    reflect.set_at(tree, q, orig)
                 ok = reflect.fingerprint(tree) == before
             if not ok:
                 res.violation(f'replacement-slot|{slot(root, p)}', f'{text!r}: returning a node for {reflect.path_str(p)} did not replace exactly that node (found {str(at)[:50]!r} there)')
@@ -307,7 +313,7 @@ class CHECK(Check):
 
     def coverage(self, agg):
         return {'exhaustive': True, 'slots_exercised': sorted(agg['cover'].get('slots', ())),
-                'rule': 'every accepted S0 sentence (edge + production-pair cover, 3 dialects) rooted in a query/DML/CREATE TABLE statement, numbered lexemes, '
+                'rule': 'every accepted S0 sentence (edge + production-pair + production-triple cover, 3 dialects) rooted in a query/DML/CREATE TABLE statement, numbered lexemes, '
                         '+ 14 hand-kept shapes; for each tree one observing traversal and one replacing traversal per visited node; '
                         'distinct_nontrivial = distinct tree fingerprints'}
 
